@@ -531,32 +531,36 @@ fn c01_separator_set() {
 }
 
 /// a register token preceded by any separator lexes to the same register: `<sep>rN` via advance_real
+/// (separator and letter case enumerated concretely -- a symbolic first character makes every arm of
+/// advance_token feasible for the symbolic executor: >35 min -- the register number is symbolic)
 #[kani::proof]
-#[kani::unwind(7)]
+#[kani::unwind(14)]
 #[kani::stub(alloc::fmt::format, stubs::fmt_format)]
 #[kani::stub(Cursor::check_instruction, Cursor::check_instruction_any)]
 #[kani::stub(Cursor::check_trap, Cursor::check_trap_any)]
 fn c01_separator_before_register() {
-    let sep: u8 = kani::any();
-    kani::assume(matches!(sep, b' ' | b'\t' | b'\n' | b'\r' | b',' | b':'));
     let d: u8 = kani::any();
     kani::assume(d < 8);
-    let upper: bool = kani::any();
-    static mut SBUF: [u8; 3] = [0; 3];
-    let src: &'static str = unsafe {
-        SBUF = [sep, if upper { b'R' } else { b'r' }, b'0' + d];
-        core::str::from_utf8_unchecked(&*core::ptr::addr_of!(SBUF).cast::<[u8; 3]>())
-    };
-    let mut c = Cursor::new(src);
-    match c.advance_real() {
-        Ok(t) => {
-            assert!(matches!(t.kind, TokenKind::Reg(r) if r as u8 == d), "register after a separator not lexed as that register");
-            assert!(t.span.offs() == 1 && t.span.len() == 2, "register token span wrong");
+    let seps = [b' ', b'\t', b'\n', b'\r', b',', b':'];
+    let mut k = 0;
+    while k < 12 {
+        let sep = seps[k % 6];
+        let upper = k >= 6;
+        let buf = [sep, if upper { b'R' } else { b'r' }, b'0' + d];
+        let text: &str = unsafe { core::str::from_utf8_unchecked(&buf[..]) };
+        let src: &'static str = unsafe { &*(text as *const str) };
+        let mut c = Cursor::new(src);
+        match c.advance_real() {
+            Ok(t) => {
+                assert!(matches!(t.kind, TokenKind::Reg(r) if r as u8 == d), "register after a separator not lexed as that register");
+                assert!(t.span.offs() == 1 && t.span.len() == 2, "register token span wrong");
+            }
+            Err(e) => {
+                core::mem::forget(e);
+                assert!(false, "register after a separator rejected");
+            }
         }
-        Err(e) => {
-            core::mem::forget(e);
-            assert!(false, "register after a separator rejected");
-        }
+        k += 1;
     }
-    kani::cover!(sep == b':' && upper && d == 7);
+    kani::cover!(d == 7);
 }
